@@ -23,6 +23,8 @@ use std::path::Path;
 
 const MAX_XML_SIZE: usize = 1024 * 1024 * 10;
 const MAX_XML_DEPTH: usize = 256;
+const MAX_XML_ATTRIBUTES: usize = 1024;
+const MAX_XML_NAMESPACES: usize = 1024;
 
 /// Main interface for reading E57 files.
 pub struct E57Reader<T: Read + Seek> {
@@ -55,9 +57,20 @@ impl<T: Read + Seek> E57Reader<T> {
             header.xml_length as usize,
         )?;
         let xml = String::from_utf8(xml_raw).read_err("Failed to parse XML as UTF8")?;
-        if xml::max_nesting_depth(&xml) > MAX_XML_DEPTH {
+        let complexity = xml::complexity(&xml);
+        if complexity.depth > MAX_XML_DEPTH {
             Error::invalid(format!(
                 "XML sections with more than {MAX_XML_DEPTH} nested tags are not supported"
+            ))?
+        }
+        if complexity.attributes > MAX_XML_ATTRIBUTES {
+            Error::invalid(format!(
+                "XML tags with more than {MAX_XML_ATTRIBUTES} attributes are not supported"
+            ))?
+        }
+        if complexity.namespaces > MAX_XML_NAMESPACES {
+            Error::invalid(format!(
+                "XML sections with more than {MAX_XML_NAMESPACES} namespace declarations are not supported"
             ))?
         }
         let document = Document::parse(&xml).invalid_err("Failed to parse XML data")?;
